@@ -377,6 +377,12 @@ class ExprMixin:
           raise Unsupported('== between %s and %s' % (a.sort, b.sort))
       if is_:
         if not self.theory_allows_is(a.sort):
+          oa, ob = a.origin, b.origin
+          c = self.cur_contract
+          if (oa and ob and oa[0] == 'elem' and ob[0] == 'elem' and oa[1] == ob[1]
+              and c is not None and oa[1] in c.no_alias):
+            # elements of a list of pairwise distinct list objects: identity is index equality
+            return oa[2] == ob[2]
           raise Unsupported("'is' on sort %s" % a.sort)
         return a.t == b.t
       return a.sort.eq(a.t, b.t)
@@ -603,7 +609,8 @@ class ExprMixin:
         i = self.as_int(idx)
         n = s.len(cont.t)
         self.oblige_or_raise(z3.And(-n <= i, i < n), 'IndexError', 'index in range', node)
-        i2 = z3.simplify(z3.If(i < 0, i + n, i))
+        # specs index from the front only (negative indices are a code-level feature)
+        i2 = i if self.pure_mode else z3.simplify(z3.If(i < 0, i + n, i))
         return V(s.elem, s.at(cont.t, i2), origin=('item', node))
       if isinstance(s, S.DictOf):
         k = self.coerce(idx, s.key)
@@ -718,6 +725,13 @@ class ExprMixin:
         # write through to the object field this local aliases
         newval = V(newval.sort, newval.t, origin=org)
         org[1].fields[org[2]] = V(newval.sort, newval.t, origin=org[3])
+      elif org is not None and org[0] == 'elem' and isinstance(newval, V):
+        # the local aliases element org[2] of the list held by org[1]: write through
+        holder = self.env[org[1]]
+        hs = holder.sort
+        self.env[org[1]] = V(hs, hs.mk(z3.Store(hs.arr(holder.t), org[2], newval.t), hs.len(holder.t)),
+                             origin=holder.origin)
+        newval = V(newval.sort, newval.t, origin=org)
       elif org is not None and org[0] == 'item' and isinstance(newval, V):
         newval = V(newval.sort, newval.t, origin=org)
       self.env[lval.id] = newval
